@@ -84,6 +84,13 @@ pub fn run_property(c: &mut ctx::Ctx) -> bool {
             }
         }
     }
+    // error paths that quote an operand, for the property's own operators (all operators for C02 .. C04)
+    if !c.small && c.pid != "C01" && c.pid != "C17" {
+        let ops: &[&str] = own_ops(&c.pid).map(|x| x.1).unwrap_or(&[]);
+        let mon = format!("{}.model", c.pid.to_lowercase());
+        let mon = if c.mons.contains_key(&mon) { mon } else { format!("{}.error-paths", c.pid.to_lowercase()) };
+        props_c01::error_echo_own(c, &mon, ops);
+    }
     // everyday idioms (folds, per-row expressions, switch ladders, annotated objects) x hostile values
     if !c.small {
         let kinds: Option<(&str, &[&str])> = match c.pid.as_str() {
